@@ -443,4 +443,38 @@ example : mkGrid (sCfg (7/4) .sound) (winOf 1 1 (1/4)) = .ok (thickGrid (sCfg (7
   mkGrid_thick _ _ (1/4) rfl (by decide) (by decide) (by norm_num [winOf, sCfg]) (by norm_num [winOf, sCfg])
     (by decide) (by norm_num [winOf, depthCountOf, sCfg])
 
+/-! ### per-layer operations -/
+
+/-- **C11 (per-layer operations)**: in every result of `run`, binned row `l` is the reduction of its own depth columns by
+    *its own* operation (the layer's, else the call's), scaled by the depth step exactly when that operation integrates,
+    and the row's unit power says the same -/
+theorem C11_rows_use_own_operation (cfg : Cfg) (mesh : List Cell) (order : Option (List Nat)) (useArr : Bool) (res : Result)
+    (h : run cfg mesh order useArr = .ok res) :
+    ∃ mem : Mem, ∀ l, l < res.binned.length →
+      res.binned[l]? = some ((List.range res.grid.ny).flatMap fun j => (List.range res.grid.nx).map fun i =>
+        (reduce (cfg.opOf l) (column res.grid mem l j i)).map (· * scaleFactor cfg.thick (cfg.opOf l) res.grid.zsp)) ∧
+      res.unitPowers[l]? = some (unitLengthPower cfg.thick (cfg.opOf l)) := by
+  unfold run at h
+  simp only at h
+  split at h
+  · cases h
+  · split at h
+    · cases h
+    · split at h
+      · cases h
+      · rename_i g _
+        injection h with h
+        subst h
+        let ks := (select cfg mesh).map (toK cfg)
+        let nl := match mesh with | [] => 0 | c :: _ => c.vals.length
+        let ordered : List KCell := match order with
+          | none => ks
+          | some idx => let a := ks.toArray; idx.filterMap fun i => a[i]?
+        let evs := ordered.flatMap (writes g nl)
+        refine ⟨if useArr then execArr (nl * g.nz * g.ny * g.nx) evs else exec (initMem g nl) evs, fun l hl => ?_⟩
+        simp only [List.length_map, List.length_range] at hl
+        constructor
+        · simp only [List.getElem?_map, List.getElem?_range hl, Option.map_some]; rfl
+        · simp only [List.getElem?_map, List.getElem?_range hl, Option.map_some]
+
 end Osyris.C11
